@@ -59,6 +59,10 @@ def eval_zone(case):
             info['transitions_closer_than_offset_change'] = tl.crowded()
             viols.append(info)
     with tzzones.open_case(case) as (z, tl):
+        if case[0] == 'foreign' and tl.crowded():
+            # what a hand-written class should answer between transitions closer together than the offset change is
+            # this harness's own invention: not judged (the library's classes are judged there, see the known finding)
+            return Res(trans=0, nontrivial=False, extra={'foreign_crowded_not_judged': 1})
         lo_ok, hi_ok = -2 ** 31 + 86400 * 3, 2 ** 31 - 86400 * 3
         for w in wall_probes(tl):
             if not (lo_ok <= w <= hi_ok):
@@ -142,6 +146,8 @@ def signature(case, detail):
 def replay(part, case):
     _CFG['thorough'] = part.endswith('thorough')
     c = tuple(case)
+    if c[0] == 'foreign':
+        c = ('foreign', tuple(c[1]), c[2])
     if c[0] == 'posix':
         c = ('posix', tuple(tuple(x) for x in c[1]), c[2])
     return eval_zone(c).viols
@@ -155,9 +161,11 @@ def run(ctx):
     pc = tzzones.posix_cases(k)
     ctx.explore('rule-zones-' + ctx.tier, pc, 'eval_zone', chunk=16, setup_arg=ctx.thorough)
     ctx.explore('fixed-' + ctx.tier, tzzones.FIXED, 'eval_zone', chunk=4, setup_arg=ctx.thorough)
+    fc = tzzones.foreign_cases(ctx.pick(1, 2), ctx.thorough)
+    ctx.explore('foreign-classes-' + ctx.tier, fc, 'eval_zone', chunk=4, setup_arg=ctx.thorough)
     ctx.coverage_extra.update({
         'states': ctx.counts['imaginary_walls'] + ctx.counts['normal_walls'] + ctx.counts['ambiguous_walls'],
-        'bounds': {'tzif_zones': len(cases), 'rule_specs_deviation_k': k, 'rule_zone_cases': len(pc)},
+        'bounds': {'tzif_zones': len(cases), 'rule_specs_deviation_k': k, 'rule_zone_cases': len(pc), 'foreign_class_cases': len(fc)},
         'wall_time_classes': {'imaginary': ctx.counts['imaginary_walls'], 'normal': ctx.counts['normal_walls'],
                               'ambiguous': ctx.counts['ambiguous_walls'],
                               'skipped_3plus_preimages': ctx.counts['skipped_three_or_more_preimages']},
